@@ -468,6 +468,20 @@ def _history_table(prog: Program, ctx: Ctx) -> None:  # noqa: PLR0912,PLR0915
                     reg = tgt.attrs.get("aliases", {})
                     if reg.get(".".join(cpath)) is not child:
                         problems.append(f"resolved alias {'.'.join(cpath)} is not listed by its target {it.getattr(tgt, 'path')} (listed: {sorted(reg)})")
+                # members seen through an alias: dotted, tuple and chained lookups all give the member *at the alias's path*
+                if isinstance(tgt, Obj) and tgt.cls is not None and tgt.cls.name != "Alias" and tgt.attrs.get("members"):
+                    for sub in list(tgt.attrs["members"]):
+                        want_path = ".".join((*cpath, sub))
+                        seen_paths_ = {}
+                        for form, call_ in (("dotted", lambda: it.call(meth(coll, "get_member"), coll, want_path)),
+                                            ("tuple", lambda: it.call(meth(coll, "get_member"), coll, (*cpath, sub))),
+                                            ("chained", lambda: it.call(meth(child, "get_member"), child, sub))):
+                            try:
+                                seen_paths_[form] = it.getattr(call_(), "path")
+                            except Raised as r:
+                                seen_paths_[form] = f"raises {r.exc}"
+                        if set(seen_paths_.values()) != {want_path}:
+                            problems.append(f"lookups of {want_path} through the alias {'.'.join(cpath)} give objects at {seen_paths_}")
             else:
                 walk(child, model[name], cpath, problems, coll)
 
